@@ -65,7 +65,7 @@ var vGidCheck = 8
 var vGidCount int
 
 // vInstrumented: is the shard_queue.go of this build the instrumented copy?  Close on a fresh queue passes
-// four hooks when it is (no connection, no RunTask needed); vProbing is only written while nothing else runs.
+// several hooks when it is (no connection, no RunTask needed); vProbing is only written while nothing else runs.
 var vProbing bool
 var vProbeHits int
 
@@ -244,7 +244,8 @@ type vActor struct {
 	// outcome of the step in progress
 	oid, onil, oerr int
 	lastVal         int32
-	spins           int
+	spins           int // Close: passes of its wait loop that have failed
+	lockRounds      int // Close: how often it has parked at the lock of shard 0 (= passes of drained() begun)
 	getters         []WriterGetter
 }
 
@@ -351,7 +352,15 @@ func (r *vRun) enabled(a *vActor) bool {
 	switch a.kind {
 	case "cas":
 		if p := uintptr(a.ptr); p >= r.lockLo && p <= r.lockHi {
-			return *(*int32)(a.ptr) == 0
+			if *(*int32)(a.ptr) != 0 {
+				return false
+			}
+			// a Close call about to start one more pass over the shards after -spin failed ones: the pass cannot
+			// succeed while a shard is non-empty or trigger != 0 (it holds no lock here, so nobody waits for it)
+			if a.role == vCloser && p == r.lockLo && a.spins >= r.cfg.spin && r.q.state != closed && !r.drainedNow() {
+				return false
+			}
+			return true
 		}
 	case "mlock":
 		return !r.listHeld
@@ -361,6 +370,15 @@ func (r *vRun) enabled(a *vActor) bool {
 		}
 	}
 	return true
+}
+
+func (r *vRun) drainedNow() bool {
+	for i := range r.q.getters {
+		if len(r.q.getters[i]) != 0 {
+			return false
+		}
+	}
+	return r.q.trigger == 0
 }
 
 func vAppendInts(b []byte, l []int) []byte {
@@ -461,8 +479,15 @@ func (r *vRun) step(c int) {
 	<-r.sched
 	r.cur = nil
 	r.steps++
-	if a.role == vCloser && kind == "load" && ptr == unsafe.Pointer(&r.q.trigger) && a.lastVal != 0 {
-		a.spins++
+	if a.role == vCloser {
+		// failed passes of Close's wait loop.  A Close that scans the shards (drained) starts every pass at the lock
+		// of shard 0; one that only polls trigger fails a pass when it loads trigger != 0.
+		if !a.done && a.kind == "cas" && uintptr(a.ptr) == r.lockLo {
+			a.lockRounds++
+			a.spins = a.lockRounds - 1
+		} else if a.lockRounds == 0 && kind == "load" && ptr == unsafe.Pointer(&r.q.trigger) && a.lastVal != 0 {
+			a.spins++
+		}
 	}
 	h := r.hash
 	h = (h ^ uint64(c+1)) * 1099511628211
@@ -842,7 +867,7 @@ func VerifShardMain(args []string) int {
 	nilS := fs.String("nilids", "", "getter ids that return isNil=true")
 	appS := fs.String("apperr", "", "getter ids whose Append fails")
 	flusherr := fs.Int("flusherr", 0, "the k-th Flush (from 1) fails")
-	spin := fs.Int("spin", 1, "a closer that saw trigger != 0 this many times is disabled until trigger == 0 or state == closed")
+	spin := fs.Int("spin", 1, "a closer whose wait loop has failed this many passes is disabled until every shard is empty and trigger == 0 (or state == closed)")
 	maxsteps := fs.Int("maxsteps", 2000, "step cutoff per run")
 	mode := fs.String("mode", "dfs", "dfs | rand | replay (controlled scheduler, need the instrumented build) | stress (real goroutines, any build)")
 	sleepp := fs.Int("sleepp", 40, "stress: per-mille probability that a perturbation point also sleeps 1-50 us")
